@@ -811,6 +811,11 @@ def np_diagonal(x):
     return Tensor((x.shape[0],), lambda i: x.at(i, i))
 
 
+@model("numpy.prod")
+def np_prod(x, axis=None):
+    return to_tensor(x, fresh=False).prod(axis=axis)
+
+
 @model("numpy.sum")
 def np_sum(x, axis=None):
     return to_tensor(x, fresh=False).sum(axis=axis)
